@@ -3,6 +3,7 @@
 mod alloc;
 mod codec;
 mod corpus;
+mod damrun;
 mod dbdump;
 mod dbgen;
 mod dbq;
@@ -15,6 +16,7 @@ mod sexp;
 mod watch;
 #[cfg(all(agdb_verif, feature = "h1_multimap"))]
 mod omaprun;
+mod valrun;
 #[cfg(agdb_verif)]
 mod walrun;
 #[cfg(agdb_verif)]
@@ -64,6 +66,15 @@ pub fn write_stats(path: &str, stats: &BTreeMap<String, u64>, evaluations: u64, 
 fn main() {
     let args: Vec<String> = std::env::args().collect();
     let cmd = args.get(1).cloned().unwrap_or_default();
+    if cmd == "c07-worker" {
+        damrun::worker();
+        return;
+    }
+    if cmd == "c07-child" {
+        // c07-child <path> <variant> <allocation limit>
+        damrun::child(&args[2], &args[3], args.get(4).and_then(|x| x.parse().ok()).unwrap_or(usize::MAX));
+        return;
+    }
     let seed: u64 = arg(&args, "--seed", "1").parse().unwrap();
     let n: usize = arg(&args, "--n", "10").parse().unwrap();
     let out = arg(&args, "--out", ".");
@@ -137,6 +148,34 @@ fn main() {
             }
             write_lines(&format!("{}/oracle.txt", out), &o.oracle);
             write_stats(&format!("{}/stats.json", out), &o.stats, o.runs, o.nontrivial, &o.samples);
+        }
+        "c07-seeds" => {
+            // writes the seed files (and their recovery logs) to --out, for manual experiments
+            let mut r = rng::Rng::new(seed);
+            for (name, data, wal) in damrun::build_seeds(&format!("{}/tmp", out), &mut r, arg(&args, "--tier", "quick") == "thorough") {
+                std::fs::write(format!("{}/{}.agdb", out, name), &data).unwrap();
+                if let Some(w) = wal { std::fs::write(format!("{}/.{}.agdb", out, name), &w).unwrap(); }
+                println!("{} {}", name, data.len());
+            }
+        }
+        "c07" => {
+            let thorough = arg(&args, "--tier", "quick") == "thorough";
+            let jobs: usize = arg(&args, "--jobs", "16").parse().unwrap();
+            let variants: Vec<String> = arg(&args, "--variants", "file,mapped,memory").split(',').map(|x| x.to_string()).collect();
+            let rep = damrun::run(seed, &out, thorough, jobs, &variants, &arg(&args, "--corpus", "/nonexistent"), n, &arg(&args, "--guards", "1111"));
+            write_lines(&format!("{}/cases.txt", out), &rep.cases);
+            write_lines(&format!("{}/impl.txt", out), &rep.imp);
+            write_lines(&format!("{}/oracle.txt", out), &rep.oracle);
+            write_stats(&format!("{}/stats.json", out), &rep.stats, rep.evaluations, rep.nontrivial, &rep.samples);
+        }
+        "c12" => {
+            let mut o = valrun::Out::new();
+            let mut r = rng::Rng::new(seed);
+            valrun::run(&mut r, n, &out, &mut o);
+            write_lines(&format!("{}/cases.txt", out), &o.cases);
+            write_lines(&format!("{}/impl.txt", out), &o.imp);
+            write_lines(&format!("{}/oracle.txt", out), &o.oracle);
+            write_stats(&format!("{}/stats.json", out), &o.stats, o.evaluations, o.nontrivial, &o.samples);
         }
         "db" => {
             let opts = dbrun::Opts {
